@@ -36,8 +36,21 @@ Nested == {VL(<<VL(<<VN(1, 0)>>), VL(<<VN(2, 0), VL(<<VN(3, 0)>>)>>)>>), VL(<<VN
 Ctxs == {VC(<<>>), VC(<<[n |-> "a", nc |-> <<97>>, v |-> VN(1, 0)]>>), VC(<<[n |-> "a", nc |-> <<97>>, v |-> VNull], [n |-> "b c", nc |-> <<98, 32, 99>>, v |-> VS(<<97>>)]>>)}
 Any1 == {VNull, VN(1, 0), VS(<<97>>), VB(TRUE), VL(<<VN(1, 0)>>)}
 
+\* numbers of equal value written with different scales (1 and 1.0, 2 / 2.0 / 2.00, 0.5 / 0.50, 4 / 4.0): one value
+ScaleLists == {VL(<<VN(1, 0), VN(10, 0 - 1), VN(2, 0)>>), VL(<<VN(2, 0), VN(20, 0 - 1), VN(200, 0 - 2), VN(3, 0), VN(3, 0)>>),
+               VL(<<VN(5, 0 - 1), VN(4, 0), VN(50, 0 - 2), VN(40, 0 - 1), VN(7, 0), VN(7, 0)>>), VL(<<VN(10, 0 - 1), VN(1, 0)>>),
+               VL(<<VN(30, 0 - 1), VN(1, 0), VN(3, 0), VN(100, 0 - 2)>>)}
 C(f, args) == [fn |-> f, args |-> args]
 Cases ==
+  {C(f, <<l>>) : f \in {"min", "max", "sum", "mean", "median", "mode", "stddev", "distinct values", "count", "reverse"}, l \in ScaleLists}
+  \cup {C(f, <<l, x>>) : f \in {"index of", "list contains"}, l \in ScaleLists, x \in {VN(1, 0), VN(10, 0 - 1), VN(300, 0 - 2), VN(2, 0)}}
+  \cup {C("union", <<a, b>>) : a \in ScaleLists, b \in {VL(<<VN(100, 0 - 2), VN(2, 0)>>)}}
+  \* an optional parameter given explicitly as null (positionally and by name: the same answer)
+  \cup {C("sublist", <<VL(<<VN(1, 0), VN(2, 0), VN(3, 0), VN(4, 0)>>), p, VNull>>) : p \in {VN(2, 0), VN(0 - 3, 0), VN(1, 0)}}
+  \cup {C("substring", <<VS(<<98, 97, 98>>), p, VNull>>) : p \in {VN(2, 0), VN(0 - 1, 0)}}
+  \cup {C("sublist", <<VL(<<VN(1, 0), VN(2, 0)>>), VNull, VN(1, 0)>>), C("substring", <<VS(<<98, 97, 98>>), VNull, VN(1, 0)>>), C("insert before", <<VL(<<VN(1, 0)>>), VNull, VN(9, 0)>>),
+         C("remove", <<VL(<<VN(1, 0)>>), VNull>>), C("get value", <<VC(<<[n |-> "a", nc |-> <<97>>, v |-> VN(1, 0)]>>), VNull>>)}
+  \cup
   {C("substring", <<s, p>>) : s \in Strings, p \in Pos} \cup {C("substring", <<s, p, l>>) : s \in {VS(<<>>), VS(<<98, 97, 98>>), VS(<<119070, 97, 98>>)}, p \in Pos, l \in Lens}
   \cup {C("substring", <<x, VN(1, 0)>>) : x \in Any1} \cup {C("substring", <<VS(<<97>>), x>>) : x \in Any1} \cup {C("substring", <<>>), C("substring", <<VS(<<97>>)>>), C("substring", <<VS(<<97>>), VN(1, 0), VN(1, 0), VN(1, 0)>>)}
   \cup {C("string length", <<s>>) : s \in Strings \cup Any1} \cup {C("string length", <<>>), C("string length", <<VS(<<97>>), VS(<<97>>)>>)}
@@ -94,6 +107,8 @@ RegexCases ==
   \cup {CR("matches", <<s, VS(Re!Render(r)), fl>>, r) : r \in RAtoms \cup RSpecial \cup {Re!Chr(66), Re!Cat(Re!Chr(65), Re!Chr(98))}, s \in RStringsI, fl \in {VS(<<105>>), VS(<<>>)}}
   \cup {CR("matches", <<s, VS(Re!Render(r))>>, r) : r \in {Re!Chr(66), Re!Cat(Re!Chr(65), Re!Chr(98))}, s \in RStringsI}
   \cup {CR("replace", <<s, VS(Re!Render(r)), rep, fl>>, r) : r \in RAtoms \cup RSpecial, s \in RStringsI, rep \in {VS(<<120>>), VS(<<91, 36, 49, 93>>)}, fl \in {VS(<<105>>), VS(<<>>)}}
+  \cup {CR("matches", <<s, VS(Re!Render(r)), VNull>>, r) : r \in {Re!Chr(97), Re!Chr(66)}, s \in {VS(<<97, 98>>), VS(<<98>>)}}            \* flags explicitly null
+  \cup {CR("replace", <<s, VS(Re!Render(r)), VS(<<120>>), VNull>>, r) : r \in {Re!Chr(97), Re!Chr(66)}, s \in {VS(<<97, 98>>), VS(<<98>>)}}
   \cup {CR(f, <<x, VS(<<97>>)>>, Re!Chr(97)) : f \in {"matches", "split"}, x \in {VNull, VN(1, 0)}}
   \cup {CR("replace", <<VS(<<97>>), VS(<<97>>), x>>, Re!Chr(97)) : x \in {VNull, VN(1, 0)}}
 ASSUME \A c \in RegexCases : PrintT(<<"CASE", ToJson(c)>>)
